@@ -254,6 +254,7 @@ class CoEServer:
         self.aborts = []      # (index, subindex, code, message_no) we sent
         self.message_no = -1  # number of the received message in progress
         self.rx_counter = None   # counter of the previous received message
+        self.new_session = False  # rx_counter is what an earlier master session left
         self.tx_counter = 0
         self.last_response = []
         self.transfer = None  # segmented transfer in progress
@@ -329,8 +330,10 @@ class CoEServer:
         counter, mtype = rec["counter"], rec["mbx_type"]
         if self.check_counter:
             prev = self.rx_counter
-            if prev is None:
-                self.rx_counter = counter   # first message: anything goes
+            if prev is None or (self.new_session and counter == 0):
+                # first message: anything goes; a master that starts counting anew (new
+                # session, the terminal was not reset) begins with 0 = no repeat detection
+                self.rx_counter = counter
             elif counter == 0:
                 # 0 = "no repeat detection"; only legal as the start value
                 self._dev("counter-zero", f"after {prev}")
@@ -345,6 +348,7 @@ class CoEServer:
                     self._dev("counter-sequence",
                               f"got {counter} after {prev}")
                 self.rx_counter = counter
+        self.new_session = False
         if typecnt & 0x80:
             self._dev("mailbox-reserved-bit", f"type byte {typecnt:#04x}")
         if 6 + length > self.mbx_out_size or 6 + length > len(raw):
